@@ -73,8 +73,13 @@ fn extract_version_prefix(version: &str) -> &str {
 /// For an npm alias (`npm:name@^1.0.0`), a JSR specifier (`jsr:@scope/name@^1.0.0`) or a quoted
 /// `uses:` value the reported token is wider than the version. Returns `None` when the version
 /// text does not occur in the token (for example a PEP 440 specifier that was normalised while
-/// parsing). For a hash-pinned action the range is that of the hash.
+/// parsing) or when the value is written over several lines. For a hash-pinned action the range
+/// is that of the hash.
 pub fn version_text_range(package: &PackageInfo, content: &str) -> Option<PackageInfo> {
+    if !package.is_on_one_line(content) {
+        return None;
+    }
+
     let text = package.commit_hash.as_deref().unwrap_or(&package.version);
     let token = content.get(package.start_offset..package.end_offset)?;
     let shift = token.rfind(text)?;
